@@ -20,7 +20,7 @@ impl AdaptationControl {
     /// just two bits within the given byte - all the other bits are ignored
     #[inline(always)]
     fn new(header_byte: u8) -> AdaptationControl {
-        AdaptationControl(header_byte)
+        AdaptationControl(header_byte & 0b0011_0000)
     }
 
     /// True if the `adaptation_field_control` indicates that the packet will have a payload
@@ -48,7 +48,7 @@ impl TransportScramblingControl {
     /// creates a new instance from the fourth byte of a TS packet's header
     #[inline]
     fn from_byte_four(val: u8) -> TransportScramblingControl {
-        TransportScramblingControl(val)
+        TransportScramblingControl(val & 0b1100_0000)
     }
 
     /// If the `transport_scrambling_control` field in the Transport Stream data has the value
